@@ -203,8 +203,16 @@ BinOps == {"+", "-", "*", "/", "//", "%", "**", "<<", ">>", "&", "|", "^"}
 PyBin(op, a, b) ==
     IF IsUnrep(a) \/ IsUnrep(b) THEN Unrep
     ELSE IF IsErr(a) THEN a
+    \* "words": elements of a free monoid, the non-commuting witness of C03 / C11 / C19
+    \* ([k |-> "word", w |-> sequence of letters]); only * is defined, 1 is neutral
+    ELSE IF a.k = "word" THEN
+        (IF IsErr(b) THEN b
+         ELSE IF op = "*" /\ b.k = "word" THEN [k |-> "word", w |-> a.w \o b.w]
+         ELSE IF op = "*" /\ IsNum(b) /\ b.n = b.d THEN a
+         ELSE Unrep)
     ELSE IF ~IsNum(a) THEN Unrep
     ELSE IF IsErr(b) THEN b
+    ELSE IF b.k = "word" THEN (IF op = "*" /\ a.n = a.d THEN b ELSE Unrep)
     ELSE IF ~IsNum(b) THEN Unrep
     ELSE CASE op = "+"  -> NumAdd(a, b)
            [] op = "-"  -> NumSub(a, b)
